@@ -96,7 +96,7 @@ class Server:
     script: optional callable(conn, event) overriding everything (event = ('connect',) | ('msg', type, payload))"""
     def __init__(self, banner=b'SSH-2.0-OpenSSH_8.0', kexinit_payload=None, hostkeys=None, gex=None, pre_banner=b'',
                  raw_after_banner=None, banner_eol=b'\r\n', segment=None, stall_after_banner=False, refuse=False,
-                 close_on_connect=False, silent=False, probe_kexinit=None, rate_banner=True, close_after_send=False):
+                 close_on_connect=False, silent=False, probe_kexinit=None, rate_banner=True, close_after_send=False, rate_fault=None, sock_fault=None):
         self.banner = banner
         self.kexinit_payload = kexinit_payload
         self.hostkeys = hostkeys or {}
@@ -112,6 +112,8 @@ class Server:
         self.probe_kexinit = probe_kexinit  # KEXINIT used on probe connections (default: same)
         self.rate_banner = rate_banner
         self.close_after_send = close_after_send   # the peer closes right after its banner / scripted bytes
+        self.rate_fault = rate_fault      # socket-level fault on the non-blocking (rate check) connections: ('recv', errno) | ('connect', errno)
+        self.sock_fault = sock_fault      # socket-level fault on blocking connection number k: ('recv', errno, k)
         self.log = []
         self.gexlog = []
         self.lock = threading.Lock()
@@ -302,11 +304,28 @@ class FakeSock:
             self.net.max_open = max(self.net.max_open, self.net.cur_open)
 
     def connect_ex(self, addr):
+        self.via_ex = True
         try:
             self.connect(addr)
-            return 0
         except OSError as e:
             return e.errno
+        rf = getattr(self.conn.srv, 'rate_fault', None)
+        if rf and rf[0] == 'connect':
+            self.conn = None
+            with self.net.lock:
+                self.net.cur_open -= 1
+            return rf[1]
+        return 0
+
+    def pending_error(self):
+        """a socket-level error the next recv() raises (select reports such a socket as readable)"""
+        if self.conn is None:
+            return None
+        if getattr(self, 'via_ex', False):
+            rf = getattr(self.conn.srv, 'rate_fault', None)
+            return rf[1] if rf and rf[0] == 'recv' else None
+        sf = getattr(self.conn.srv, 'sock_fault', None)
+        return sf[1] if sf and sf[0] == 'recv' and sf[2] == self.conn.index else None
 
     def send(self, data):
         if self.conn is None:
@@ -327,6 +346,10 @@ class FakeSock:
         self.net.recv_calls += 1
         if self.net.recv_calls > self.net.max_recv_calls:
             raise HarnessHang('more than %d recv calls in one run' % self.net.max_recv_calls)
+        pe = self.pending_error()
+        if pe is not None:
+            import os as _os
+            raise OSError(pe, _os.strerror(pe))
         if self.conn.out:
             d = self.conn.out.pop(0)
             if len(d) > n:
@@ -427,7 +450,7 @@ def patched(net, fake_time=True):
     sel = types.ModuleType('fakeselect')
 
     def select(r, w, x, t=None):
-        rl = [s for s in r if s.conn and (s.conn.out or s.conn.closed)]
+        rl = [s for s in r if s.conn and (s.conn.out or s.conn.closed or s.pending_error() is not None)]
         return rl, [], []
     sel.select = select
     dh.select = sel
